@@ -1137,7 +1137,9 @@ fn block_or_stmt_to_asg_type(val: oq3_syntax::BlockOrStmt, context: &mut Context
     match val {
         oq3_syntax::BlockOrStmt::BlockExpr(body) => block_expr_to_asg_type(body, context),
         oq3_syntax::BlockOrStmt::Stmt(stmt) => {
-            asg::Block::new(vec![stmt_to_asg_stmt(stmt, context).unwrap()])
+            // As in a block in curlies, some statements (e.g. an annotation, a version
+            // string) translate to no statement at all.
+            asg::Block::new(stmt_to_asg_stmt(stmt, context).into_iter().collect())
         }
     }
 }
